@@ -39,8 +39,8 @@ def gap_file(mask):
             m = dict(amp)
             m["name"] = f"amp{i + 1}"
             mods.append(m)
-    while mods and mods[-1] is None:
-        mods.pop()
+    # trailing empty positions STAY in the file (the program writes them while higher slots were once in use); the loaded
+    # project does not show them (N1), and attaching afterwards must behave as for any other project
     base["modules"] = mods
     return codec.encode(base)
 
@@ -89,6 +89,7 @@ def ops():
         {"op": "iadd_list"},
         {"op": "iadd_list_dup"},
         {"op": "iadd_list_refused"},
+        {"op": "iadd_list_mixed"},
         {"op": "attach_pattern", "what": "fresh"},
         {"op": "attach_pattern", "what": "foreign"},
         {"op": "attach_pattern", "what": "foreign_clone"},
@@ -206,6 +207,10 @@ class Own:
                     outcome = "raise:ModuleOwnershipError"
                 if S.diff(sq, S.project(L["q"])) or S.diff(sp, S.project(p)) or L["qmod"].parent is not L["q"]:
                     L["viol"].append(C.viol("refused-attach-changes-state", {"op": k}, {}))
+            elif k == "iadd_list_mixed":
+                # a list naming modules that are ALREADY part of this project (a no-op for them) before a new one
+                new_obj = rv.m.Amplifier()
+                p += [m_ for m_ in p.modules if m_ is not None][:2] + [new_obj]
             elif k == "iadd_list_dup":
                 # the same (new) module named twice in one list, another new module in between
                 new_obj = rv.m.Amplifier()
@@ -431,7 +436,7 @@ class Own:
 
         if k == "new_module":
             place(op["T"])
-        elif k in ("attach_fresh", "iadd_module"):
+        elif k in ("attach_fresh", "iadd_module", "iadd_list_mixed"):
             place("Amplifier")
         elif k == "iadd_list":
             place("Amplifier")
